@@ -599,6 +599,12 @@ func (s *c04Stream) deep(gen string, comments, comfort bool, kind string, d int)
 		segs = []C4Seg{c04Seg("a", 1), c04Seg("[0]", d)}
 	case "let":
 		segs = []C4Seg{c04Seg("let a=1;", d), c04Seg("a", 1)}
+	case "callee-fails": // sqrt(1,2)(1)(1)...: the callee of every level fails at generation time (fixed: 7a0266c)
+		segs = []C4Seg{c04Seg("sqrt(1,2)", 1), c04Seg("(1)", d)}
+	case "callee-list": // [a](1)(1)...: a callee that is not a function, known at run time only
+		segs = []C4Seg{c04Seg("[a]", 1), c04Seg("(1)", d)}
+	case "callee-unknown": // nope(1)(1)...: unknown identifier as innermost callee
+		segs = []C4Seg{c04Seg("nope", 1), c04Seg("(1)", d)}
 	}
 	s.add(C4Case{Gen: gen, Comments: comments, Comfort: comfort, Src: "deep/" + kind, Segs: segs, Deep: d})
 }
@@ -621,6 +627,7 @@ func c04Streams(seed int64, tier string, boost int) []C4Case {
 	s.add(c04Plain("lastunary", false, false, "corpus", "-1-2+-3"))
 	s.add(c04Plain("value", false, false, "corpus", "1 ) )")) // C12: tokenizer goroutine left behind
 	s.add(c04Plain("value", false, false, "corpus", "1 )"))
+	s.add(c04Plain("value", false, false, "corpus", "sqrt(1,2)"+strings.Repeat("(1)", 400))) // error text and time quadratic in the nesting (fixed: 7a0266c)
 	for _, t := range []string{"", "\x00", "a\x00b", "\"abc", "\"abc\n x", "'abc", "'ab\nc' d", "/*", "/* *", "/* */", "//", "a//", "a/*", "a/* x *", "/", "a/",
 		"\"\\", "\"\\\x00\"", "\xff\xfe", "a\xffb", "+\xff", "<\xff=", "1e", "1e+", "1..2", "x²³", "²", "((((((((((", "/*a*//*b*/", "*/", "'", "\"", "'\x00'", "//\x00\nb", "/*\x00*/b",
 		"/*\x00", "\"\xff", "'\xff", "//\xff", "/*\xff*/", "1\xff", "if\xff", "–>", "\ufeffa", "a.", "a[", "{a:", "{a", "f(", "x->", "let", "let a", "let a=", "func", "func f(", "if", "if a then",
@@ -742,7 +749,7 @@ func c04Streams(seed int64, tier string, boost int) []C4Case {
 	}
 
 	// ---- deep nesting
-	kinds := []string{"paren", "paren-open", "bracket", "bracket-open", "brace", "unary", "if", "if-cond", "closure", "call", "plus", "dot", "index", "let"}
+	kinds := []string{"paren", "paren-open", "bracket", "bracket-open", "brace", "unary", "if", "if-cond", "closure", "call", "plus", "dot", "index", "let", "callee-fails", "callee-list", "callee-unknown"}
 	if thorough {
 		for _, k := range kinds {
 			s.deep("value", false, false, k, 30000)
